@@ -59,6 +59,35 @@ def make_handler(kind, calls):
                 list.append(self, err)
 
         return C()
+    if kind == "object-with-sink-like-attributes":
+        # a callable object that also has attributes named like a logger's, a file's, a queue's methods (what a
+        # unittest.mock.Mock, a logging adapter or a writer class looks like): the handler is the object, called
+        class Sink:
+            def __call__(self, err):
+                calls.append(err)
+
+            def _other(self, *a, **k):
+                return None
+
+            error = warning = exception = log = write = put = put_nowait = append = send = emit = handle = _other
+            name = "sink"
+            level = 0
+            handlers = ()
+
+        return Sink()
+    if kind == "object-with-none-attributes":
+        class Sink2:
+            error = write = put = append = handle = None
+            __name__ = None
+
+            def __call__(self, err):
+                calls.append(err)
+
+        return Sink2()
+    if kind == "partial":
+        import functools
+
+        return functools.partial(lambda sink, err: sink.append(err), calls)
     if kind == "bound-method":
         return _Bound(calls).handle
     if kind == "extra-default-parameter":
@@ -242,7 +271,7 @@ def s_damage(draw, tier):
                 reps.append(streams.item("frame", base, repeat=True))
         k = draw(st.integers(0, len(items)))
         items = items[:k] + reps + items[k:]
-    return {"items": items, "mode": draw(st.sampled_from(["ignore", "log-handler", "log-nohandler", "raise"])), "handler": draw(st.sampled_from(["function", "collector", "bound-method", "returns-true", "returns-count", "extra-default-parameter", "varargs"])), "handoff": draw(st.integers(0, 3)) == 0, **({"sock": draw(st.lists(st.sampled_from([0, 1, 1]), min_size=1, max_size=6)), "bufsize": draw(st.sampled_from([1, 16, 4096]))} if draw(st.integers(0, 3)) == 0 else {})}
+    return {"items": items, "mode": draw(st.sampled_from(["ignore", "log-handler", "log-nohandler", "raise"])), "handler": draw(st.sampled_from(["function", "collector", "bound-method", "returns-true", "returns-count", "extra-default-parameter", "varargs", "object-with-sink-like-attributes", "object-with-none-attributes", "partial"])), "handoff": draw(st.integers(0, 3)) == 0, **({"sock": draw(st.lists(st.sampled_from([0, 1, 1]), min_size=1, max_size=6)), "bufsize": draw(st.sampled_from([1, 16, 4096]))} if draw(st.integers(0, 3)) == 0 else {})}
 
 
 def e_tiny(tier, shard, nshards):
@@ -303,7 +332,7 @@ SUBS = [
         enum=e_all,
         examples=(250, 5000),
         rule="see property rule",
-        need={"reader-handed-to-another-thread": 1, "two-byte-payload-all-single-bit-damage": 4096, "re-broadcast-frame-damaged-twice": 1, "damaged-frame-with-sync-like-payload": 1, "long-run-of-damaged-frames": 1, "handler-collector": 1, "handler-returns-true": 1, "socket-with-gaps-between-items": 1, "damage-in-crc": 1, "damage-in-payload": 1, "damage-in-straddle": 1, "adjacent-damaged": 1, "raise": 1, "log-nohandler": 1},
+        need={"reader-handed-to-another-thread": 1, "two-byte-payload-all-single-bit-damage": 4096, "re-broadcast-frame-damaged-twice": 1, "damaged-frame-with-sync-like-payload": 1, "long-run-of-damaged-frames": 1, "handler-collector": 1, "handler-returns-true": 1, "handler-object-with-sink-like-attributes": 1, "handler-object-with-none-attributes": 1, "socket-with-gaps-between-items": 1, "damage-in-crc": 1, "damage-in-payload": 1, "damage-in-straddle": 1, "adjacent-damaged": 1, "raise": 1, "log-nohandler": 1},
         sample=_sample,
     ),
 ]
